@@ -1304,9 +1304,9 @@ def rule_c17_r7(model: Model) -> RuleResult:
     # the attribute that holds the bindings: the key _make_subclass puts into the namespace of a parametrised class
     mk = model.func(f'{CLS}._make_subclass')
     keys = set()
-    for c in ast.walk(mk.node):
-        if isinstance(c, ast.Call) and isinstance(c.func, ast.Name) and c.func.id == 'type' and len(c.args) == 3 and isinstance(c.args[2], ast.Dict):
-            for k, v in zip(c.args[2].keys, c.args[2].values):
+    for ns_ in _type_namespaces(mk):
+        if True:
+            for k, v in zip(ns_.keys, ns_.values):
                 if isinstance(v, ast.Name) and k is not None:
                     kk = k.value if isinstance(k, ast.Constant) else (m.assign_values.get(k.id).value if isinstance(k, ast.Name)  # type: ignore[union-attr]
                                                                       and isinstance(m.assign_values.get(k.id), ast.Constant) else None)
@@ -1383,14 +1383,31 @@ def rule_c17_r8(model: Model) -> RuleResult:
     return r
 
 
+def _type_namespaces(mk: FuncInfo) -> t.List[ast.Dict]:
+    """The namespace dictionaries handed to ``type(name, bases, namespace)`` in ``mk``: written in place, or held in a local first."""
+    out: t.List[ast.Dict] = []
+    for c in ast.walk(mk.node):
+        if isinstance(c, ast.Call) and isinstance(c.func, ast.Name) and c.func.id == 'type' and len(c.args) == 3:
+            a = c.args[2]
+            if isinstance(a, ast.Dict):
+                out.append(a)
+            elif isinstance(a, ast.Name):
+                for st in ast.walk(mk.node):
+                    if isinstance(st, (ast.Assign, ast.AnnAssign)) and isinstance(getattr(st, 'value', None), ast.Dict):
+                        tgts = st.targets if isinstance(st, ast.Assign) else [st.target]
+                        if any(isinstance(tg, ast.Name) and tg.id == a.id for tg in tgts):
+                            out.append(st.value)
+    return out
+
+
 def _boundvars_key(model: Model) -> str:
     """The namespace key under which a parametrised class keeps its {type variable: argument} table (found by role)."""
     mk = model.func(f'{CLS}._make_subclass')
     m = model.module(CLS)
     keys = set()
-    for c in ast.walk(mk.node):
-        if isinstance(c, ast.Call) and isinstance(c.func, ast.Name) and c.func.id == 'type' and len(c.args) == 3 and isinstance(c.args[2], ast.Dict):
-            for k, v in zip(c.args[2].keys, c.args[2].values):
+    for ns_ in _type_namespaces(mk):
+        if True:
+            for k, v in zip(ns_.keys, ns_.values):
                 if isinstance(v, ast.Name) and k is not None:
                     kk = k.value if isinstance(k, ast.Constant) else (m.assign_values.get(k.id).value if isinstance(k, ast.Name)  # type: ignore[union-attr]
                                                                       and isinstance(m.assign_values.get(k.id), ast.Constant) else None)
